@@ -154,17 +154,28 @@ def project_written(w):
     return dict(tag='plain', txt=cps(str(w)), has_ofs=False, ofs=0, has_tz=False)
 
 
+MISMATCH = object()      # the three views of a cell do not even have the same structure
+
+
 def leaves(v, w, o, path=''):
     """zip the first-run value, the written json and the resumed value down to typed leaves"""
     if isinstance(v, dict) and not (isinstance(w, dict) and len(w) == 1 and list(w)[0].startswith('type{')):
         if not isinstance(w, dict) or not isinstance(o, dict) or set(v) != set(w) or set(v) != set(o):
-            yield path, None, None, None
+            yield path, MISMATCH, MISMATCH, MISMATCH
             return
         for k in v:
             yield from leaves(v[k], w[k], o[k], path + '.' + k)
+    elif isinstance(v, (set, frozenset)):
+        # sets are written as {"type{set}": [...]} and must come back as sets (elements are ints here: a total order)
+        if not (isinstance(w, dict) and list(w) == ['type{set}'] and isinstance(w['type{set}'], list)) or not isinstance(o, (set, frozenset)) \
+                or len(w['type{set}']) != len(v) or len(o) != len(v):
+            yield path, MISMATCH, MISMATCH, MISMATCH
+            return
+        for i, (a, b, c) in enumerate(zip(sorted(v), sorted(w['type{set}']), sorted(o))):
+            yield from leaves(a, b, c, path + '{%d}' % i)
     elif isinstance(v, (list, tuple)):
         if not isinstance(w, list) or not isinstance(o, (list, tuple)) or len(w) != len(v) or len(o) != len(v):
-            yield path, None, None, None
+            yield path, MISMATCH, MISMATCH, MISMATCH
             return
         for i, (a, b, c) in enumerate(zip(v, w, o)):
             yield from leaves(a, b, c, path + '[%d]' % i)
@@ -190,11 +201,15 @@ def catalogue_rows():
     rows.append(dict(i=102, dt=None, dec=None, d=None, t=None, s=None, dur=None, arr=None, obj=None))
     rows.append(dict(i=103, dt=datetime.datetime(2020, 6, 7, 8, 9, 10, 123456), dec=D('1E+5'), d=datetime.date(2020, 6, 7),
                      t=datetime.time(1, 2, 3, 500000), s='micro', dur=td(hours=5), arr=[D('1')], obj=dict(x=1)))
+    # sets (the encoding claims them: type{set}), at top level of an `any` field and nested
+    rows.append(dict(i=104, dt=None, dec=None, d=None, t=None, s='sets', dur=None, arr=[{1, 2}, set()], obj=dict(tags={3, 1, 2}), anyv={7, -1}))
+    for x in rows:
+        x.setdefault('anyv', None)
     return rows
 
 
 FIELDS = [('i', 'integer'), ('dt', 'datetime'), ('dec', 'number'), ('d', 'date'), ('t', 'time'), ('s', 'string'),
-          ('dur', 'duration'), ('arr', 'array'), ('obj', 'object')]
+          ('dur', 'duration'), ('arr', 'array'), ('obj', 'object'), ('anyv', 'any')]
 
 
 def random_rows(r, n):
@@ -213,7 +228,8 @@ def random_rows(r, n):
         rows.append(dict(i=i, dt=dt, dec=dec, d=datetime.date(r.randint(1, 9999), r.randint(1, 12), r.randint(1, 28)),
                          t=datetime.time(r.randint(0, 23), r.randint(0, 59), r.randint(0, 59), r.choice([0, 0, r.randrange(1, 999999)])),
                          s=s, dur=td(days=r.randint(0, 400), seconds=r.randint(0, 86399)),
-                         arr=[r.randint(-5, 5), s, [dec]], obj=dict(k=dec, n=dict(d=datetime.date(2000, 1, r.randint(1, 28))))))
+                         arr=[r.randint(-5, 5), s, [dec]], obj=dict(k=dec, n=dict(d=datetime.date(2000, 1, r.randint(1, 28)))),
+                         anyv=r.choice([None, {r.randint(-9, 9) for _ in range(r.randint(0, 3))}, r.randint(0, 5)])))
     return rows
 
 
@@ -246,6 +262,9 @@ def value_cells(item):
         for ri, (a, w, o) in enumerate(zip(first_rows, written, second_rows)):
             for name, _ in FIELDS:
                 for path, va, vw, vo in leaves(a.get(name), w.get(name), o.get(name), name):
+                    if va is MISMATCH:
+                        problems.append('row %d %s: structure differs between first run / file / resumed run' % (ri, path))
+                        continue
                     pa, po = project_value(va), project_value(vo)
                     if pa is None or po is None or (va is None and vw is None and vo is None and path != name and False):
                         problems.append('row %d %s: structure differs between first run / file / resumed run' % (ri, path))
